@@ -156,6 +156,18 @@ def all_targets(depth, with_rows, lean_outer=False):
     return out
 
 
+def aliased_targets():
+    """one assignment naming the same bits more than once: the reference semantics does not order bits inside one assignment, but the
+    statement still demands that a testbench write and the circuit assignment agree"""
+    x, y, o, i_ = leaf(X), leaf(Y), leaf(O), leaf(I)
+    sl = lambda T, a, b: ("slice", T, a, b, None)
+    return [("cat", x, x), ("cat", y, y), ("cat", sl(x, 0, 2), sl(x, 1, 3)), ("cat", sl(x, 1, 3), sl(x, 0, 2)), ("cat", x, sl(x, 0, 2)),
+            ("cat", sl(x, 1, 3), x), ("cat", y, x, y), ("cat", ("idx", x, 0), ("idx", x, 0), ("idx", x, 0)), ("cat", sl(x, 0, 3), sl(x, 1, 3), x),
+            ("cat", ("bsel", x, o, 2), x), ("cat", x, ("bsel", x, o, 2)), ("cat", ("wsel", x, i_, 2), sl(x, 1, 3)),
+            ("cat", ("arr", i_, x, y), x), ("cat", y, ("arr", i_, x, y)), ("cat", ("u", "as_signed", x), x), ("cat", ("rol", x, 1), x),
+            ("cat", ("cat", x, y), ("cat", y, x))]
+
+
 def uses_row(T):
     return any(i in (ROW0, ROW1) for i in R.leaves(T))
 
@@ -190,7 +202,8 @@ def build_target(T, sigs):
 
 def write_batch(task):
     """targets sharing the underlying signals; returns cov + violations"""
-    targets, with_rows = task
+    targets, with_rows, *rest = task
+    two_way = bool(rest and rest[0])          # aliased targets: testbench write against circuit assignment only (no bit-map reference)
     from amaranth.hdl import Module, Signal, Shape, ClockDomain, Cat, Value
     from amaranth.hdl._mem import MemoryData
     from amaranth.lib.memory import Memory
@@ -254,12 +267,36 @@ def write_batch(task):
                     cur.update(zip(ctl, ctlv))
                     cur[Z] = 0
                     for v in values:
+                        out["cov"]["evaluations"] += 1
+                        if two_way:
+                            if not (-(1 << 8) <= v < (1 << 8)):
+                                continue          # vin carries 9 signed bits
+                            load(st)
+                            try:
+                                ctx.set(bt, v)
+                                got = read()
+                            except Exception as ex:
+                                got = "raises " + type(ex).__name__
+                            load(st)
+                            ctx.set(vin, v)
+                            ctx.set(sel, n + 1)
+                            ctx.set(cd.clk, 1)
+                            ctx.set(cd.clk, 0)
+                            got2 = read()
+                            ctx.set(sel, 0)
+                            if got2 != st:
+                                changed_any = True
+                            if got != got2 and len(out["violations"]) < 40:
+                                out["violations"].append({
+                                    "sig": f"set-vs-circuit:{R.show(T)}",
+                                    "what": f"ctx.set({R.show(T)}, {v}) from state {cur}: testbench write gives {got}, the same assignment in a circuit {got2}",
+                                    "payload": {"target": T, "with_rows": False, "two_way": True}})
+                            continue
                         nxt = dict(cur)
                         S.write(T, v, cur, nxt, shapes)
                         want = tuple(nxt[i] for i in state_sigs)
                         if want != st:
                             changed_any = True
-                        out["cov"]["evaluations"] += 1
                         # leg 1: testbench write
                         load(st)
                         try:
@@ -406,6 +443,9 @@ def run(rep):
     tg_rows = [t for t in tg_rows if uses_row(t)]
     tasks = [("w", (ch, False)) for ch in chunks(tg, rep.pick(12, 12))]
     tasks += [("w", (ch, True)) for ch in chunks(tg_rows, 12)]
+    al = aliased_targets()
+    tasks += [("w", (ch, False, True)) for ch in chunks(al, 3)]
+    rep.setcov("aliased_targets", len(al))
     Wr = rep.pick(2, 3)
     for tr in itertools.product(G.shapes(Wr), repeat=3):
         tasks.append(("r", ("d1", Wr, tr)))
@@ -424,7 +464,7 @@ def run(rep):
     rep.setcov("write_targets_enumerated", len(tg) + len(tg_rows))
     rep.setcov("rule", f"writes: every assignable target of nesting depth<={depth} over x:u3, y:s2 (+memory rows), offsets o:u2 / i:u1 / "
                "zero-width, x every state of the underlying signals x every written value in [-2^L, 2^(L+1)); three legs: ctx.set, compiled "
-               "sync assignment, bit-map reference. reads: every depth-1 expression term (and depth-2 over a shape subset) x all leaf values: "
+               "sync assignment, bit-map reference (targets naming the same bits twice: ctx.set against the compiled assignment only). reads: every depth-1 expression term (and depth-2 over a shape subset) x all leaf values: "
                "ctx.get vs circuit vs reference. non-trivial: a target for which some write changes the state / a term whose value varies")
     rep.setcov("exhaustive", True)
     rep.require(rep.cov.get("targets", 0) > 50 and rep.cov.get("read_terms", 0) > 500, "targets and read terms enumerated")
@@ -436,7 +476,7 @@ def _tup(x):
 
 def replay(payload):
     if "target" in payload:
-        out = write_batch(([_tup(payload["target"])], payload["with_rows"]))
+        out = write_batch(([_tup(payload["target"])], payload["with_rows"], payload.get("two_way", False)))
         return [v["what"] for v in out["violations"]][:5]
     if "term" in payload:
         r = eval_batch([_tup(payload["term"])], read_path=True, circuit_path=True, max_viol=5)
